@@ -33,13 +33,14 @@ SEED_REPLAY = lambda w: {"code": """
 import numpy as np, pickle
 from pyxel.util import set_random_seed
 def state(): return pickle.dumps(np.random.get_state())
-np.random.seed(123); before = state()
+np.random.seed(123); np.random.normal()        # leaves a cached second Gaussian deviate pending in the global state
+before = state()
 with set_random_seed(7):
-    a = np.random.random(3)
+    a = np.random.random(3); np.random.normal(size=3)
 ok_normal = state() == before
 try:
     with set_random_seed(7):
-        b = np.random.random(3); raise RuntimeError('x')
+        b = np.random.random(3); np.random.normal(size=3); raise RuntimeError('x')
 except RuntimeError:
     pass
 ok_exc = state() == before
